@@ -14,7 +14,7 @@ RULE = ("random histories (<=14 steps) of push_theme(inherit=T/F), pop_theme (in
         "Non-trivial: >=3 steps with >=1 non-inheriting push or exceptional exit; distinct by history.")
 ASSUMPTIONS = ["rich.default_styles.DEFAULT_STYLES is data (what the default theme defines)",
                "style names are drawn from [A-Za-z0-9_.-]+ (what a config file key can hold)"]
-REQUIRED = ["mon.context_reentered", "mon.lookup", "mon.pop_restores", "mon.base_pop", "mon.config_roundtrip", "mon.exception_exit"]
+REQUIRED = ["mon.console_style_by_name", "mon.context_reentered", "mon.lookup", "mon.pop_restores", "mon.base_pop", "mon.config_roundtrip", "mon.exception_exit"]
 MIN_NONTRIVIAL = {"quick": 2000, "thorough": 100000}
 
 NAMES = ["info", "warn", "danger", "repr.number", "rule.line", "bar.complete", "a", "b.c", "red", "bold",
@@ -60,8 +60,31 @@ def theme_map(expect, inherit_defaults):
     return m
 
 
+def check_console_style(ctx, console, log):
+    """A console-wide style given by NAME is looked up when something is printed: the printed characters carry what
+    the name resolves to NOW (get_style itself is compared with the reference stack by check_lookups)."""
+    from rich.color import ColorSystem
+    from rv.model import sgr
+    name = getattr(console, "_rv_style_name", None)
+    if name is None:
+        return True
+    f = console.file
+    mark = len(f.getvalue())
+    console.print("x", end="")
+    got = sgr.decode(f.getvalue()[mark:])
+    want = sgr.decode(console.get_style(name).render("x", color_system=ColorSystem.TRUECOLOR))
+    ctx.count("mon.console_style_by_name")
+    if [c[:4] for c in got.chars] != [c[:4] for c in want.chars] or [bool(c[4]) for c in got.chars] != [bool(c[4]) for c in want.chars]:
+        ctx.violation("console-wide-style-name-resolved-differently-when-printing",
+                      {"log": log, "console_style": name, "printed": repr(got.chars), "get_style_now": repr(want.chars)})
+        return False
+    return True
+
+
 def check_lookups(ctx, console, model, log, universe):
     from rich.errors import MissingStyle
+    if not check_console_style(ctx, console, log):
+        return False
     top = model[-1]
     for name in universe:
         ctx.count("mon.lookup")
@@ -98,12 +121,18 @@ def wl_histories(ctx, rng, case_no):
     from rich.theme import ThemeStackError
     base_theme, base_expect, base_inh = rand_theme(rng)
     use_default_base = rng.random() < 0.5
+    # a console-wide style given by name: "bold" / "red" are theme names that some generated themes redefine and
+    # that are valid definitions by themselves (so the lookup can never fail)
+    cstyle = rng.choice([None, None, "bold", "red"])
+    ckw = dict(file=io.StringIO(), _environ={}, force_terminal=True, color_system="truecolor", legacy_windows=False,
+               style=cstyle)
     if use_default_base:
-        console = Console(file=io.StringIO(), _environ={})
+        console = Console(**ckw)
         model = [theme_map({}, True)]
     else:
-        console = Console(file=io.StringIO(), theme=base_theme, _environ={})
+        console = Console(theme=base_theme, **ckw)
         model = [theme_map(base_expect, base_inh)]
+    console._rv_style_name = cstyle
     log = [["console", "default-theme" if use_default_base else sorted(base_expect), base_inh]]
     universe = NAMES + [d for d, _ in DEFS] + JUNK + ["repr.str", "logging.level.info"]
     if not check_lookups(ctx, console, model, log, universe):
